@@ -254,6 +254,29 @@ fn raw_level(run: &Arc<Run>, depth: usize) {
             }
         }
     }
+    // every tick gap 1..=1100 and around every power of two, after a key frame and after a
+    // plain tick, followed by a small gap (an error in one marker shifts the ticks after it)
+    let mut gaps: Vec<i32> = (1..=1100).collect();
+    for k in 10..=30 {
+        for d in [-1i32, 0, 1, 7, 31, 32] {
+            gaps.push((1i32 << k) + d);
+        }
+    }
+    gaps.push(i32::MAX - 200);
+    let cases: Vec<(i32, bool, bool)> = gaps.iter().flat_map(|&g| [(g, false, false), (g, true, false), (g, false, true)]).collect();
+    cases.par_iter().for_each(|&(g, first_key, gap_key)| {
+        run.add_evals(1);
+        let seq = vec![C::Tick(0, first_key), C::Msg(1), C::Tick(g, gap_key), C::Msg(2), C::Tick(1, false), C::Tick(32, false), C::Msg(3)];
+        match vp_core::catch(|| write_read(&seq, &pl, &ms, (1, 1, 1, false))) {
+            Ok(Ok(_)) => run.class(&format!("tick-gap:{}", if g < 32 { "inline" } else if g < 256 { "32..255" } else if g < 65536 { "256..65535" } else { "65536.." }), || json!({"gap": g})),
+            Ok(Err(msg)) => {
+                run.violation("c15:raw:tick-gap", &format!("gap {} (key frame before: {}, at: {}): {}", g, first_key, gap_key, msg), json!({"gap": g, "chunks": format!("{:?}", seq)}));
+            }
+            Err(p) => {
+                run.violation(&format!("c15:raw:{}", vp_core::panic_sig(&p)), &format!("gap {}: {}", g, p), json!({"gap": g, "chunks": format!("{:?}", seq)}));
+            }
+        }
+    });
 }
 
 // ---------------------------------------------------------------------------
@@ -393,11 +416,11 @@ fn typed_level(run: &Arc<Run>, depth: usize) {
 fn main() {
     let run = Run::new("C15", "exploration");
     let thorough = run.tier == Tier::Thorough;
-    raw_level(&run, if thorough { 4 } else { 3 });
-    typed_level(&run, if thorough { 5 } else { 4 });
+    raw_level(&run, if thorough { 5 } else { 4 });
+    typed_level(&run, if thorough { 6 } else { 5 });
     run.assume("raw writer: tick numbers strictly increase (its documented precondition); payloads whose compressed form does not fit a 16-bit size are not 'accepted by the writer' and are not generated");
     run.finish(
-        "raw level: all chunk sequences up to the depth over {tick +1/+31/+32/+33, key-frame ticks, snapshot / delta payloads with compressed sizes on both sides of 29/30 and 255/256, messages of length 0,1,3,4,5,64,100}, every payload size incl. the largest representable, header strings of every length; typed level: all world histories up to the depth over 5 object sets (ordinal objects, UUID-typed objects of sizes 1 and 2) x tick steps {+1,+250,+251} x non-increasing ticks (must be refused, recording stays usable); written with the real writers into memory, read back with the real readers, compared chunk by chunk, zero warnings",
+        "raw level: all chunk sequences up to the depth over {tick +1/+31/+32/+33, key-frame ticks, snapshot / delta payloads with compressed sizes on both sides of 29/30 and 255/256, messages of length 0,1,3,4,5,64,100}, every payload size incl. the largest representable, header strings of every length, every tick gap 1..1100 and around every power of two up to 2^30; typed level: all world histories up to the depth over 5 object sets (ordinal objects, UUID-typed objects of sizes 1 and 2) x tick steps {+1,+250,+251} x non-increasing ticks (must be refused, recording stays usable); written with the real writers into memory, read back with the real readers, compared chunk by chunk, zero warnings",
         true,
     );
 }
